@@ -1544,12 +1544,16 @@ func nothingFacts(repo string) {
 	if !ok || mfun != "max" || len(margs) != 2 {
 		die("medianSamplesAbove: loop start is not max(start, have+step): %s", src(init.Rhs[0]))
 	}
-	hb, ok := unparen(margs[1]).(*ast.BinaryExpr)
-	if !ok || hb.Op != token.ADD || !isIdent(hb.X, "have") {
-		die("medianSamplesAbove: second operand of max is not have+step: %s", src(margs[1]))
+	haveStep := "0" // a bare `have` is have+0
+	if !isIdent(margs[1], "have") {
+		hb, ok := unparen(margs[1]).(*ast.BinaryExpr)
+		if !ok || hb.Op != token.ADD || !isIdent(hb.X, "have") {
+			die("medianSamplesAbove: second operand of max is not have+step: %s", src(margs[1]))
+		}
+		haveStep = mustNum(hb.Y, "medianSamplesAbove step").natVal("step")
 	}
 	pf("def medianLimit : Nat := %s\ndef medianStart : Nat := %s\n", limit.natVal("limit"), mustNum(margs[0], "medianSamples start").natVal("start"))
-	pf("/-- the loop starts at max(medianStart, have + medianHaveStep) -/\ndef medianHaveStep : Nat := %s\n", mustNum(hb.Y, "medianSamplesAbove step").natVal("step"))
+	pf("/-- the loop starts at max(medianStart, have + medianHaveStep) -/\ndef medianHaveStep : Nat := %s\n", haveStep)
 	// medianSamples(confidence) = medianSamplesAbove(confidence, <have>)
 	var delegate *num
 	ast.Inspect(msOuter.Body, func(n ast.Node) bool {
